@@ -5,6 +5,7 @@
 package generator
 
 import (
+	"fmt"
 	"github.com/basecomplextech/spec/internal/lang/model"
 	"strings"
 )
@@ -50,6 +51,14 @@ func (w *fileWriter) file(file *model.File) error {
 	}
 
 	for _, imp := range file.Imports {
+		// The generated file imports these packages itself, a schema import with the same name
+		// would be redeclared in the Go file.
+		switch imp.Name {
+		case "alloc", "async", "bin", "buffer", "pools", "ref", "status", "spec", "rpc", "prpc":
+			return fmt.Errorf("import %q: name %q is used by the generated code, specify another alias",
+				imp.ID, imp.Name)
+		}
+
 		pkg := importPackage(imp)
 		name := imp.Name
 		if !usesImport(body, imp.Name) {
